@@ -305,7 +305,11 @@ impl Property for C02 {
         }
         // programs on the widths of the format (254..257 arguments, members, locals): whatever
         // the compiler emits for the ones it accepts must be well-formed
-        for (i, (name, src)) in crate::gen::limits::programs().into_iter().enumerate() {
+        let mut limit_programs = crate::gen::limits::programs();
+        if ctx.tier == Tier::Thorough {
+            limit_programs.extend(crate::gen::limits::huge_programs());
+        }
+        for (i, (name, src)) in limit_programs.into_iter().enumerate() {
             if !ctx.shard_mine(i + 5) {
                 continue;
             }
